@@ -171,6 +171,7 @@ func runC13(t *testing.T, c *choice.Stream, r *Result, opt RunOpt) {
 		}
 		// The caller may give up just as a handshake fails for a reason of its own:
 		// whoever cleans up must not leave the other's part undone.
+		lateDone := c.Bool("ctx.late", 1, 2)
 		lateCancel := !success && c.Bool("late.cancel", 1, 3)
 		lateCancelStep := c.Draw("late.cancel.step", 500)
 		var lateCancelFn context.CancelFunc
@@ -189,7 +190,12 @@ func runC13(t *testing.T, c *choice.Stream, r *Result, opt RunOpt) {
 			ctx := context.Background()
 			if ctxDeadline > 0 {
 				var cancel context.CancelFunc
-				ctx, cancel = context.WithTimeout(ctx, ctxDeadline)
+				if lateDone {
+					// the connection's deadline (a copy of the context's) is noticed first
+					ctx, cancel = NewLateCtx(e, ctxDeadline)
+				} else {
+					ctx, cancel = context.WithTimeout(ctx, ctxDeadline)
+				}
 				defer cancel()
 			}
 			if lateCancel {
